@@ -241,7 +241,7 @@ func checkRequestSizedOps(p *core.Program, r *core.Report, entries []*ssa.Functi
 					if c := x.Common().StaticCallee(); c != nil && c.Name() == "Grow" && c.Pkg != nil {
 						switch c.Pkg.Pkg.Path() {
 						case "bytes", "strings", "slices", "bufio":
-							operands, what = x.Common().Args[len(x.Common().Args)-1:], "(" + c.Pkg.Pkg.Path() + ") Grow"
+							operands, what = x.Common().Args[len(x.Common().Args)-1:], "("+c.Pkg.Pkg.Path()+") Grow"
 						}
 					}
 					if c := x.Common().StaticCallee(); c != nil && c.Pkg != nil && c.Pkg.Pkg.Path() == "strings" && c.Name() == "Repeat" {
